@@ -1,0 +1,28 @@
+//go:build verif
+
+package votecounter
+
+// Contracts for gocv (contract-based deductive verification, /verif).
+// Comment-only file: with the verif tag it compiles to nothing.
+
+//@ func f
+//@   props C12
+//@   arith int
+//@   requires totalVotingPower >= 1
+//@   ensures lt: 3*result < totalVotingPower
+//@   ensures max: 3*(result+1) >= totalVotingPower
+//@
+//@ func q
+//@   props C12
+//@   arith int
+//@   requires totalVotingPower < 1<<63
+//@   ensures ceil_lo: 3*result >= 2*totalVotingPower
+//@   ensures ceil_hi: result == 0 || 3*(result-1) < 2*totalVotingPower
+//@
+//@ lemma quorumIntersection(N types.VotingPower)
+//@   props C12
+//@   arith int
+//@   requires 1 <= N && N < 1<<63
+//@   ensures intersect: 2*q(N) - N > f(N)
+//@   ensures honest: N - f(N) >= q(N)
+//@   ensures third: 3*f(N) < N
